@@ -495,13 +495,13 @@ pub fn mk_glyph_v1(name: &str, tok: &str) -> Glyph {
         g.contours.push(Contour::new(pts, None));
     }
     for _ in 0..r.below(2) {
-        g.components.push(Component::new(Name::new("a").unwrap(), norad::AffineTransform::default(), None));
+        g.components.push(Component::new(Name::new(&xname(&mut r, &["a"])).unwrap(), norad::AffineTransform::default(), None));
     }
     for _ in 0..r.below(3) {
         g.anchors.push(Anchor::new(
             plain_num(&mut r),
             plain_num(&mut r),
-            Some(Name::new(*r.pick(&["top", "bottom", "_top"])).unwrap()),
+            Some(Name::new(&xname(&mut r, &["top", "bottom", "_top"])).unwrap()),
             None,
             None,
         ));
